@@ -251,6 +251,32 @@ def nodeStep (st : NSt) (t : List String) (implObs : String) : Option (NSt × St
     match tm.toInt? with
     | some v => some ({ st with now := v }, "ok", "-")
     | none => some (st, "bad-op", "-")
+  | ["nseal", i, dst, hex] =>
+    -- a key holder seals a raw plaintext (no type byte; possibly empty) with the node's session for `dst`
+    match i.toNat?, parseNAddr dst, (if hex = "-" then some [] else Bytes.ofHex hex) with
+    | some port, some d, some plain =>
+      match getNode st port with
+      | none => some (st, "bad-op", "-")
+      | some n =>
+        let (ires, istate) := splitObs implObs
+        let views := parseSessions istate
+        let o := mkOracle (parseOuts ires) views (1000 + port)
+        let c0 : Ctx := { node := n }
+        match lookupA n.peers d with
+        | none =>
+          let (s, obs) := finishStep st port c0 views "nopeer "
+          some (s, obs, "-")
+        | some p =>
+          let (_, rr, _) := rndFor o c0 d
+          match PeerCrypto.sealMsg p.crypto plain rr.ct with
+          | (pc', .ok (bytes, log)) =>
+            let c1 := { c0 with node := { n with peers := insertA n.peers d { p with crypto := pc' } } }
+            let (s, obs) := finishStep st port ((addLog log c1).send d bytes) views ""
+            some (s, obs, "-")
+          | (_, .error _) =>
+            let (s, obs) := finishStep st port c0 views "nopeer "
+            some (s, obs, "-")
+    | _, _, _ => some (st, "bad-op", "-")
   | [op, i, dst] =>
     if op = "nconnect" || op = "npeer" then
       match i.toNat?, parseNAddr dst with
